@@ -827,10 +827,14 @@ def gen_rescale_oracle(rng, n):
             for a_, b_ in zip(X0, Y):
                 while a_ == b_:
                     b_[1 + rng.randrange(dim)] = rng.choice([0.125, -0.375])
-        y_ideal = (not grid) and rng.random() < 0.3
+        near = (not grid) and rng.random() < 0.2
+        if near:
+            # nearly coincident and coincident points (the representatives still get independent factors of either sign)
+            Y = [[1.0] + [c + rng.choice([0.0, 1e-9, 1e-6, 1e-4, 3e-3]) * rng.uniform(-1, 1) for c in x[1:]] for x in X0]
+        y_ideal = (not grid) and (not near) and rng.random() < 0.3
         if y_ideal:      # ideal points (eigenvectors of loxodromic isometries are handed out like this, with any sign)
             Y = [[1.0] + [c / math.sqrt(sum(t * t for t in y[1:])) for c in y[1:]] for y in Y]
-        yield {"dim": dim, "k": k, "X": X0, "Y": Y, "y_ideal": y_ideal, "grid": grid, "Z": fball_h(rng, k, dim),
+        yield {"dim": dim, "k": k, "X": X0, "Y": Y, "y_ideal": y_ideal, "grid": grid, "near": near, "Z": fball_h(rng, k, dim),
                "poly": [_with_ideal_vertex(rng, fball_h(rng, nv, dim)) for _ in range(k)],
                "lx": flam(rng, k), "ly": flam(rng, k), "lz": flam(rng, k), "lp": [flam(rng, nv) for _ in range(k)],
                "d": rng.uniform(0.05, 2.0), "angle": ang, "boost": rng.uniform(0.3, 3.0), "tc": flam(rng, 1)[0],
@@ -863,6 +867,12 @@ def _outputs(inp, X, Y, Z, poly, tscale):
     o["coords_projective~"] = np.asarray(PX.coords("projective"), float)
     if not inp.get("y_ideal"):
         o["distance"] = np.asarray(PX.distance(PY), float)
+    if inp.get("near"):
+        # (segments, tangent directions and circles are ill-conditioned / undefined for coincident points)
+        o["distance_reverse"] = np.asarray(PY.distance(PX), float)
+        for fo in (True, False):
+            o["origin_to_map(force_oriented=%s)#" % fo] = np.asarray(PX.origin_to(force_oriented=fo).proj_data, float)
+        return o
     seg = H.Segment(PX, PY)
     ib = np.asarray(seg.ideal_endpoint_coords("klein"), float)
     o["segment_ideal_unordered"] = np.sort(ib, axis=-2) if False else ib
@@ -873,6 +883,8 @@ def _outputs(inp, X, Y, Z, poly, tscale):
             o["circle_%s_centre" % m] = np.asarray(c, float)
             o["circle_%s_radius" % m] = np.asarray(r, float)
             o["circle_%s_thetas@" % m] = np.asarray(th, float)
+            cd_, rd_, thd = seg.circle_parameters(degrees=True, model=m)
+            o["circle_%s_thetas(degrees=True)@" % m] = np.radians(np.asarray(thd, float))
     t = PX.unit_tangent_towards(PY)
     o["tangent_base"] = np.asarray(H.Point(t.point).coords("klein"), float)
     o["point_along"] = np.asarray(t.point_along(inp["d"]).coords("klein"), float)
@@ -880,6 +892,17 @@ def _outputs(inp, X, Y, Z, poly, tscale):
     o["tangent_angle"] = np.asarray(t.angle(PX.unit_tangent_towards(PZ)), float)
     iso = PX.origin_to()
     o["origin_to_origin"] = np.asarray(iso.apply(H.Point.get_origin(dim)).coords("klein"), float)
+    # every value of the keyword options: the constructed isometries as projective maps
+    for fo in (True, False):
+        o["origin_to_map(force_oriented=%s)#" % fo] = np.asarray(PX.origin_to(force_oriented=fo).proj_data, float)
+    if not inp.get("y_ideal") and not inp.get("near"):
+        tv = PX.unit_tangent_towards(PY)
+        tz = PZ.unit_tangent_towards(PY)
+        for fo in (True, False):
+            # unoriented frames are determined up to the sign of the completed rows: compare what is determined
+            # (rows 0 and 1 as projective points); the oriented ones of H^2 are unique and compared as maps below
+            fr = np.asarray(tv.origin_to(force_oriented=fo).proj_data, float)
+            o["tangent_origin_to_rows(force_oriented=%s)~" % fo] = fr[..., :2, :]
     tiso = t.origin_to()
     o["tangent_origin_to_origin"] = np.asarray(tiso.apply(H.Point.get_origin(dim)).coords("klein"), float)
     e1 = np.zeros(dim); e1[0] = 0.5
@@ -1301,7 +1324,10 @@ def gen_objhist(rng, n):
             steps.append(rng.choice([{"op": "query"}, {"op": "query"}, {"op": "transform", "iso": [rng.uniform(-3, 3), rng.uniform(0.5, 2), rng.uniform(-3, 3)]},
                                      {"op": "setitem", "i": rng.randrange(k), "j": rng.randrange(k)}, {"op": "set"}, {"op": "flatten"},
                                      {"op": "reshape"}, {"op": "index", "i": rng.randrange(k)}, {"op": "copy"}, {"op": "mutate_returned"},
-                                     {"op": "other"}]))
+                                     {"op": "other"},
+                                     {"op": "edit_copy", "how": rng.choice(["ctor", "flatten", "reshape", "copy"]), "i": rng.randrange(k), "j": rng.randrange(k),
+                                      "reverse": rng.random() < 0.5},
+                                     {"op": "inv_then_product", "iso": [rng.uniform(-3, 3), rng.uniform(0.5, 2), rng.uniform(-3, 3)]}]))
         steps.append({"op": "query"})
         yield {"dim": dim, "kind": kind, "A": mk(), "B": mk(), "other": fball_h(rng, 1, dim, 0.8)[0][1:], "steps": steps,
                "order": rng.choice(["AB", "BA"]), "dtypes": [rng.choice(["float64", "float32", "int"]) for _ in range(2)],
@@ -1359,6 +1385,36 @@ def run_objhist(inp):
         elif op == "other":
             _hq(B, opt)                                     # the same kinds of calls on the unrelated object
             _hq(_fresh(B), opt)
+        elif op == "edit_copy" and len(cur.shape) == 1 and B.shape == cur.shape and cur.shape[0] > max(st["i"], st["j"]):
+            # a copy made through the constructor / flatten / reshape / copy; editing one of the two must not change the other
+            from copy import copy as _copy
+            how = st["how"]
+            cp = {"ctor": lambda: type(cur)(cur), "flatten": lambda: cur.flatten_to_unit(), "reshape": lambda: cur.reshape(cur.shape),
+                  "copy": lambda: _copy(cur)}[how]()
+            _hq(cur, opt); _hq(cp, opt)
+            edited, kept = (cur, cp) if st["reverse"] else (cp, cur)
+            snap_kept = np.array(kept.proj_data, copy=True)
+            shares = np.shares_memory(edited.proj_data, kept.proj_data)
+            edited[st["i"]] = B[st["j"]]
+            if not shares:
+                # the untouched one still answers like a fresh object on ITS data (which must not have changed)
+                e1, _k = _hq_err(_hq(kept, opt), _hq(type(kept)(snap_kept), opt))
+                if e1 > worst:
+                    worst, where = e1, [n_, "edit_copy:" + how + (":reverse" if st["reverse"] else ""), _k]
+            cur = edited
+        elif op == "inv_then_product":
+            # inverses / queries on the factors BEFORE the product is formed; the product must behave like a fresh object
+            T1 = _iso_dim(st["iso"], dim)
+            T2 = H.Isometry.standard_rotation(st["iso"][2] + 0.3, dimension=dim)
+            T2.inv(); T1.inv(); T1.apply(opt)
+            Tp = T1 @ T2
+            Tf = H.Isometry(np.array(Tp.proj_data, copy=True))
+            e1 = max(err(np.asarray(Tp.inv().proj_data, float), np.asarray(Tf.inv().proj_data, float)),
+                     err(np.asarray((Tp.inv() @ Tp).proj_data, float), np.eye(dim + 1)),
+                     err(np.asarray(Tp.apply(opt).coords("klein"), float), np.asarray(Tf.apply(H.Point(np.array(inp["other"]), model="klein")).coords("klein"), float)))
+            if e1 > worst:
+                worst, where = e1, [n_, op, None]
+            cur = Tp.inv() @ (Tp @ cur)
         got = _hq(cur, opt)
         want = _hq(_fresh(cur), H.Point(np.array(inp["other"]), model="klein"))
         e, key = _hq_err(got, want)
